@@ -11,7 +11,7 @@ use std::sync::atomic::{AtomicBool, Ordering};
 use std::sync::Arc;
 use std::task::{Context, Poll, Wake, Waker};
 
-pub const STEP_CAP: u64 = 1_000_000;
+pub const STEP_CAP: u64 = 4_000_000;
 
 #[derive(Clone, Copy, PartialEq, Eq, Debug)]
 enum PState {
